@@ -1079,7 +1079,20 @@ func (r *pyRange) Operator(operator Operator, operand pyObject) pyObject {
 }
 
 func (r *pyRange) Len() int {
-	return int((r.Stop - r.Start) / r.Step)
+	if r.Step > 0 && r.Start < r.Stop {
+		return int((r.Stop - r.Start + r.Step - 1) / r.Step)
+	} else if r.Step < 0 && r.Start > r.Stop {
+		return int((r.Start - r.Stop - r.Step - 1) / -r.Step)
+	}
+	return 0
+}
+
+// before returns true if i comes before the end of this range, in the direction it counts.
+func (r *pyRange) before(i pyInt) bool {
+	if r.Step < 0 {
+		return i > r.Stop
+	}
+	return i < r.Stop
 }
 
 func (r *pyRange) Item(index int) pyObject {
@@ -1088,7 +1101,7 @@ func (r *pyRange) Item(index int) pyObject {
 
 func (r *pyRange) Iter() iter.Seq[pyObject] {
 	return func(yield func(pyObject) bool) {
-		for i := r.Start; i < r.Stop; i += r.Step {
+		for i := r.Start; r.before(i); i += r.Step {
 			if !yield(i) {
 				break
 			}
@@ -1102,7 +1115,7 @@ func (r *pyRange) MarshalJSON() ([]byte, error) {
 
 func (r *pyRange) toList(extraCapacity int) pyList {
 	ret := make(pyList, 0, r.Len()+extraCapacity)
-	for i := r.Start; i < r.Stop; i += r.Step {
+	for i := r.Start; r.before(i); i += r.Step {
 		ret = append(ret, i)
 	}
 	return ret
